@@ -79,7 +79,9 @@ impl ConfirmHistory {
         };
 
         let len = end_tick - start_tick + 1; // +1 because the range is inclusive.
-        let range = (1 << len) - 1; // Shift 1 to `len` and then decrement to get `len` of 1's.
+        // Shift 1 to `len` and then decrement to get `len` of 1's.
+        // `len` is 64 when the range covers the whole mask, so the shift needs to be checked.
+        let range = 1u64.checked_shl(len).map_or(u64::MAX, |bit| bit - 1);
         let offset = self.last_tick - end_tick;
         let mask = range << offset;
 
@@ -120,7 +122,8 @@ impl ConfirmHistory {
     pub(super) fn set_last_tick(&mut self, tick: RepliconTick) {
         debug_assert!(tick >= self.last_tick);
         let diff = tick - self.last_tick;
-        self.mask = self.mask.wrapping_shl(diff);
+        // Unlike `wrapping_shl`, drops all bits if the difference exceeds the mask size.
+        self.mask = self.mask.checked_shl(diff).unwrap_or(0);
         self.last_tick = tick;
         self.mask |= 1;
     }
@@ -272,6 +275,30 @@ mod tests {
         assert!(!history.contains(RepliconTick::new(u64::BITS)));
         assert!(history.contains(RepliconTick::new(u64::BITS + 1)));
         assert!(!history.contains(RepliconTick::new(u64::BITS + 2)));
+    }
+
+    #[test]
+    fn confirm_beyond_mask() {
+        let mut history = ConfirmHistory::new(RepliconTick::new(0));
+        history.confirm(RepliconTick::new(1));
+        history.confirm(RepliconTick::new(u64::BITS + 1));
+        assert_eq!(history.mask(), 0b1);
+        assert!(!history.contains(RepliconTick::new(u64::BITS)));
+
+        history.confirm(RepliconTick::new(2 * u64::BITS + 2));
+        assert_eq!(history.mask(), 0b1);
+        assert!(!history.contains(RepliconTick::new(2 * u64::BITS + 1)));
+    }
+
+    #[test]
+    fn contains_any_with_full_mask() {
+        let mut history = ConfirmHistory::new(RepliconTick::new(u64::BITS - 1));
+        assert!(history.contains_any(RepliconTick::new(0), RepliconTick::new(u64::BITS - 1)));
+        assert!(history.contains_any(RepliconTick::new(0), RepliconTick::new(u64::BITS)));
+        assert!(!history.contains_any(RepliconTick::new(0), RepliconTick::new(u64::BITS - 2)));
+
+        history.confirm(RepliconTick::new(0));
+        assert!(history.contains_any(RepliconTick::new(0), RepliconTick::new(u64::BITS - 2)));
     }
 
     #[test]
